@@ -471,6 +471,23 @@ func analyseParserLoop(c *core.Ctx, want map[string]bool) {
 		case callee != nil && strings.HasPrefix(callee.String(), "strings.LastIndex") && len(args) == 2 && frameInPkg(s, parserPkg):
 			splitters[callee.String()+"|"+args[1].Key()] = pos
 			return nil, false
+		case callee != nil && (callee.String() == "strings.Index" || callee.String() == "strings.IndexByte" || callee.String() == "strings.IndexAny" || callee.String() == "strings.IndexRune" || callee.String() == "strings.Cut") && len(args) == 2 && frameInPkg(s, parserPkg) && s.Data["line"] != "" && absint.Mentions(args[0], strings.TrimPrefix(s.Data["line"], "§")):
+			// the line (or its trimmed form) is searched from the front for something: whatever is cut off there
+			// is part of a name for the grammar (names may contain any character, the value is what follows the
+			// last separator)
+			if top := s.Frames[len(s.Frames)-1].Fn; !strings.Contains(top.Signature.Results().String(), "MetadataPair") {
+				// (the helper that takes a note line apart looks for its ':' from the front, by the grammar of notes)
+				report("C04-R3", "extra-cut", pos, "the scanned line is searched with %s for %s before it is split at its last separator: an entry line is then cut at a place the grammar knows nothing about, so a name that contains that text loses its tail (or the line becomes malformed)", callee.String(), args[1].Key())
+			}
+			return nil, false
+		case callee != nil && func() bool { _, ok := forwardingWrapperOf(callee); return ok }():
+			// a wrapper that counts or logs and hands the record on to the callback unchanged: the callback itself, as
+			// far as delivery is concerned
+			pi, _ := forwardingWrapperOf(callee)
+			if pi < len(args) {
+				return args[pi], true
+			}
+			return nil, false
 		case callee == nil && fnv != nil && fnv.Key() == cbKey && len(args) == 2:
 			// the callback is invoked
 			nodeA, errA := args[0], args[1]
@@ -988,4 +1005,87 @@ func parserLoopFunc(fn *ssa.Function) *ssa.Function {
 		return found[0]
 	}
 	return fn
+}
+
+// ruleScannerSetup (C10-R4, shared with C09 and C04): the scanner that reads the log and the book is given the
+// reader its function was handed, as it is, and splits it with bufio.ScanLines (the default). A reader wrapped on
+// the way (io.LimitReader, a transforming reader) ends or changes the input without an error; a split function of
+// the tree decides what a line is, and with it every line number, by code the properties know nothing about.
+func ruleScannerSetup(c *core.Ctx, rule string) {
+	n := 0
+	for _, fn := range c.P.Funcs {
+		if core.FnPkgPath(fn) != parserPkg {
+			continue
+		}
+		for _, b := range fn.Blocks {
+			for _, in := range b.Instrs {
+				call, ok := in.(*ssa.Call)
+				if !ok {
+					continue
+				}
+				cal := core.Callee(&call.Call)
+				if cal == nil {
+					continue
+				}
+				fname := core.FuncName(fn)
+				pos := c.P.Pos(call.Pos())
+				switch {
+				case cal.String() == "bufio.NewScanner" && len(call.Call.Args) == 1:
+					n++
+					c.Universe(rule+" scanners of the parser", fname+" ("+pos+")")
+					src := call.Call.Args[0]
+					for i := 0; i < 3; i++ {
+						switch t := src.(type) {
+						case *ssa.ChangeInterface:
+							src = t.X
+							continue
+						case *ssa.MakeInterface:
+							src = t.X
+							continue
+						}
+						break
+					}
+					okSrc := false
+					switch t := src.(type) {
+					case *ssa.Parameter:
+						okSrc = true
+					case *ssa.Call:
+						// a file the function opened itself (os.Open result), handed over as it is
+						if oc := core.Callee(&t.Call); oc != nil && (oc.String() == "os.Open" || oc.String() == "os.OpenFile") {
+							okSrc = true
+						}
+					case *ssa.Extract:
+						if tc, isC := t.Tuple.(*ssa.Call); isC {
+							if oc := core.Callee(&tc.Call); oc != nil && (oc.String() == "os.Open" || oc.String() == "os.OpenFile") {
+								okSrc = true
+							}
+						}
+					case *ssa.UnOp:
+						okSrc = true // a reader kept in a variable or field
+					case *ssa.Phi, *ssa.FreeVar:
+						okSrc = true
+					}
+					if okSrc {
+						c.Discharge(rule, fname, "scanner source", pos, "the scanner reads the reader it was handed, as it is")
+					} else {
+						c.Violate(rule, fname, "scanner source", pos, "the scanner is built on "+src.String()+", not on the reader the function was handed: a reader that is capped or transformed on the way (io.LimitReader, a decoder) ends or alters the input without any error, so a file that was only partly read is reported as a success", nil)
+					}
+				case isMethod(cal, "bufio", "Scanner", "Split") && len(call.Call.Args) == 2:
+					n++
+					splitFn := call.Call.Args[1]
+					if ct, isCT := splitFn.(*ssa.ChangeType); isCT {
+						splitFn = ct.X
+					}
+					if f, isF := splitFn.(*ssa.Function); isF && f.String() == "bufio.ScanLines" {
+						c.Discharge(rule, fname, "split function", pos, "bufio.ScanLines")
+					} else {
+						c.Violate(rule, fname, "split function", pos, "the scanner is given the split function "+splitFn.String()+": what counts as a line — and so every line number an error reports, and whether a carriage return, a long line or the last line without a newline is a line of its own — is now decided by that function and no longer by bufio.ScanLines, which the line-number and classification rules assume", nil)
+					}
+				}
+			}
+		}
+	}
+	if n == 0 {
+		c.Undecide(rule, "parser", "universe", "-", "package parser builds no bufio.Scanner although it must read its input line by line somehow", nil)
+	}
 }
